@@ -471,7 +471,8 @@ class EnvView:
         try:
             return raw(self._env[k])
         except KeyError:
-            raise AttributeError(k)
+            # a contract clause (invariant, ...) speaks about a local variable the code no longer has: the clause cannot be stated
+            raise Unsupported(f'the contract refers to the local variable `{k}`, which is not defined at this point of the code')
 
     def __contains__(self, k):
         return k in self._env
